@@ -84,9 +84,10 @@ def gen_cases(ctx):
         cases.append({"i": i, "kind": "bootstrap", "state": "absent", "target": rng.choice(["default", "yaml", "dotslash"]) if k else "default",
                       "pkg": "example.com/m/p1", "variant": k % 3, "env": k % 2 == 1})
         i += 1
-    for k in range(2 if ctx.tier == "quick" else 6):
-        cases.append({"i": i, "kind": "bootstrap", "state": "absent", "target": ["default", "yaml"][k % 2], "pkg": "example.com/m/p1", "variant": k % 3, "env": False,
-                      "ancestor_config": True})
+    for k in range(4 if ctx.tier == "quick" else 12):
+        # the ancestor's file under both spellings: the name `init` writes (.mockery.yml) is the second one the search looks for
+        cases.append({"i": i, "kind": "bootstrap", "state": "absent", "target": ["default", "default", "yaml", "default"][k % 4], "pkg": "example.com/m/p1", "variant": k % 3, "env": False,
+                      "ancestor_config": True, "ancestor_name": [".mockery.yaml", ".mockery.yml"][k % 2]})
         i += 1
     return cases
 
@@ -102,7 +103,7 @@ def eval_case(ctx, case):
         os.rename(outer, tmp)
         os.makedirs(os.path.dirname(inner))
         os.rename(tmp, inner)
-        with open(os.path.join(outer, ".mockery.yml"), "w") as f:
+        with open(os.path.join(outer, case.get("ancestor_name", ".mockery.yml")), "w") as f:
             f.write("all: true\npackages:\n  example.com/outer/does/not/exist: {}\n")
         root = inner
     tg = case["target"]
